@@ -27,6 +27,10 @@ pub enum Bi {
     Div,
     Tuple,
     Chain,
+    /// an ordering comparison (its operands are checked after both were evaluated)
+    Lt,
+    /// structural equality (no type check at all)
+    Eq,
 }
 
 pub const UNS: [Un; 9] = [
@@ -40,7 +44,7 @@ pub const UNS: [Un; 9] = [
     Un::Neg,
     Un::PartialAdd,
 ];
-pub const BIS: [Bi; 6] = [Bi::Add, Bi::And, Bi::Or, Bi::Div, Bi::Tuple, Bi::Chain];
+pub const BIS: [Bi; 8] = [Bi::Add, Bi::And, Bi::Or, Bi::Div, Bi::Tuple, Bi::Chain, Bi::Lt, Bi::Eq];
 
 pub fn leaves() -> Vec<Ast> {
     let int = |i| Ast::Lit(RV::Int(i));
@@ -82,6 +86,8 @@ pub fn mk_bi(b: Bi, l: Ast, r: Ast) -> Ast {
         Bi::Div => Ast::Bin(BinOp::Div, Box::new(l), Box::new(r)),
         Bi::Tuple => Ast::Tuple(vec![l, r]),
         Bi::Chain => Ast::Chain(vec![l, r]),
+        Bi::Lt => Ast::Bin(BinOp::Lt, Box::new(l), Box::new(r)),
+        Bi::Eq => Ast::Bin(BinOp::Eq, Box::new(l), Box::new(r)),
     }
 }
 
@@ -133,6 +139,17 @@ pub fn unrank(counts: &[u64], lv: &[Ast], n: usize, mut idx: u64) -> Ast {
         idx -= pairs;
     }
     unreachable!("rank out of range")
+}
+
+/// Does the program contain a comparison operator (`<`, `==`)? The quick tiers enumerate the largest
+/// program size without them.
+pub fn has_comparison(a: &Ast) -> bool {
+    match a {
+        Ast::Var(_) | Ast::Lit(_) | Ast::Unit => false,
+        Ast::Bin(op, l, r) => matches!(op, BinOp::Lt | BinOp::Eq) || has_comparison(l) || has_comparison(r),
+        Ast::Pre(_, e) | Ast::Call(_, e) | Ast::Partial(_, e) | Ast::Asg(_, _, e) => has_comparison(e),
+        Ast::Tuple(es) | Ast::Chain(es) => es.iter().any(has_comparison),
+    }
 }
 
 pub fn has_assignment(a: &Ast) -> bool {
